@@ -1076,6 +1076,9 @@ func rulePanicSafeUnlock() check.Rule {
 						if _, isSig := fv.Type().Underlying().(*types.Signature); !isSig {
 							return true
 						}
+						if libraryOwnedParam(m, p, fn, fv) {
+							return true
+						}
 						n++
 						c.Inc("foreign_calls_in_locking_functions", 1)
 						key := fmt.Sprintf("%s/foreign-call-%s#%d", chainKey(m, p, m.EnclosingFuncs(p, fn), scs), fv.Name(), n)
@@ -1169,3 +1172,79 @@ func verifControlErrorToComplete[T any]() func(Observable[T]) Observable[T] {
 	}
 }
 `
+
+// libraryOwnedParam: fv is a function-typed parameter of fn, fn is a literal bound to a local closure variable that is
+// only ever called, and every call site passes, for that parameter, a function literal that itself calls nothing the
+// library does not own (no function-typed variable, parameter or field): a lock wrapper `withLock(func() { x = y })`.
+func libraryOwnedParam(m *model.Model, p *packages.Package, fn ast.Node, fv *types.Var) bool {
+	lit, ok := fn.(*ast.FuncLit)
+	if !ok || lit.Type.Params == nil {
+		return false
+	}
+	info := p.TypesInfo
+	idx := -1
+	for i, v := range model.FlattenParams(info, lit.Type.Params) {
+		if v == fv {
+			idx = i
+		}
+	}
+	if idx < 0 {
+		return false
+	}
+	var holder types.Object
+	if as, ok := m.Parent(p, lit).(*ast.AssignStmt); ok {
+		for i, r := range as.Rhs {
+			if ast.Unparen(r) == ast.Expr(lit) && i < len(as.Lhs) {
+				if id, ok := as.Lhs[i].(*ast.Ident); ok {
+					holder = objOf(info, id)
+				}
+			}
+		}
+	}
+	if holder == nil {
+		return false
+	}
+	top := topDecl(m.EnclosingFuncs(p, lit))
+	if top == nil || top.Body == nil {
+		return false
+	}
+	ok, sites := true, 0
+	ast.Inspect(top.Body, func(x ast.Node) bool {
+		id, isID := x.(*ast.Ident)
+		if !isID || info.Uses[id] != holder {
+			return true
+		}
+		call, isCall := m.Parent(p, id).(*ast.CallExpr)
+		if !isCall || ast.Unparen(call.Fun) != ast.Expr(id) || idx >= len(call.Args) {
+			ok = false
+			return true
+		}
+		arg, isLit := ast.Unparen(call.Args[idx]).(*ast.FuncLit)
+		if !isLit {
+			ok = false
+			return true
+		}
+		sites++
+		ast.Inspect(arg.Body, func(y ast.Node) bool {
+			c2, isCall := y.(*ast.CallExpr)
+			if !isCall {
+				return true
+			}
+			if tv, isType := info.Types[c2.Fun]; isType && tv.IsType() {
+				return true
+			}
+			if model.Callee(info, c2) != nil {
+				return true
+			}
+			if fid, isID := ast.Unparen(c2.Fun).(*ast.Ident); isID {
+				if _, isBuiltin := info.Uses[fid].(*types.Builtin); isBuiltin {
+					return true
+				}
+			}
+			ok = false // a call through a function value
+			return true
+		})
+		return true
+	})
+	return ok && sites > 0
+}
